@@ -1,4 +1,5 @@
 mod backoff;
+mod e2e;
 mod gate;
 mod reconnect;
 mod tlsm;
@@ -16,9 +17,11 @@ fn main() {
         let rt = tokio::runtime::Builder::new_current_thread().enable_all().build().unwrap();
         let base = rt.block_on(rusty_penguin_lib::server::State::new()).expect("state");
         let mut tls_ctx: Option<tlsm::Ctx> = None;
+        let mut world: Option<e2e::World> = None;
         for c in read_cases(path) {
             let r = match c.first() {
                 Some(14) => gate::run_case(&rt, &base, &c[1..]),
+                Some(1) => world.get_or_insert_with(e2e::World::new).run_case(&c[1..]),
                 Some(17) => tls_ctx.get_or_insert_with(tlsm::Ctx::new).run_case(&c[1..]),
                 Some(19) if c.get(1) == Some(&1) => backoff::run_case(&c[2..]),
                 Some(19) if c.get(1) == Some(&2) => reconnect::run_case(&c[2..]),
@@ -31,6 +34,7 @@ fn main() {
     }
     match which.as_str() {
         "gate" => gate::generate(&a, &mut out),
+        "e2e" => e2e::generate(&a, &mut out),
         "tls" => tlsm::generate(&a, &mut out),
         "backoff" => backoff::generate(&a, &mut out),
         "reconnect" => reconnect::generate(&a, &mut out),
